@@ -88,7 +88,7 @@ var c18Small = []string{
 // atoms of the random part
 var c18Atoms = []string{
 	// identifiers, keywords, numbers
-	"a", "foo", "B2", "if", "FOR", "not", "r", "e", "1", "12.5", "1e+3", "1e5", "0x", "1.2.3", "²",
+	"a", "foo", "B2", "if", "FOR", "not", "r", "e", "1", "12.5", "1e+3", "1e5", "0x", "1.2.3", "²", "1e+308", "1e+309", "٣", "1₅",
 	// symbols
 	"+", "-", "*", "/", "//", ":=", ">=", "(", ")", "[", "]", "{", "}", ".", ",", ";", ":", "=", "!", "?", "@",
 	// blanks
@@ -200,7 +200,9 @@ func init() {
 			// corpus: the known finding, the repaired string end, position-relevant shapes
 			for _, s := range []string{"a # c\nb", "a # c\n\nb", "a # c\n  b c\nd", "# c\n\"s\" x", "# c\n/* \n */ x", "# c\n# d\nx",
 				"a \"x\\\\\" b", "r\"a\nb\" c\nd", "/* a\nb */ c\nd", "a\r\nb", "a\n", "a\n\n", "", "\n", "\"a\nb\" c", "\"abc", "/* x\n",
-				"é b\nü c", "a\n\xffb", "a /*\n*/ # c\nb /* # \n */ c", "#", "#\n", "# c", "a#c\r\nb"} {
+				"é b\nü c", "a\n\xffb", "1e+308 a", "1e+309 a", "1.7976931348623158e+308 a", "1.7976931348623159e+308 a", "0e+999999999 a",
+				"1e+0000000000001 a", "1e+311e5 a", "1₅ a", "٣ a", "0.0000001e+315 a", "0.0000001e+316 a", "17976931348623158" + strings.Repeat("0", 292) + " a",
+				"17976931348623159" + strings.Repeat("0", 292) + " a", "a /*\n*/ # c\nb /* # \n */ c", "#", "#\n", "# c", "a#c\r\nb"} {
 				lexCase("corpus", s)
 			}
 			maxLen, nRandom, nPlant := 3, 12000, 6000
